@@ -12,7 +12,7 @@ def path_summary(p):
     return '%s[%s]' % (p.kind, fmt_events(p.events))
 
 
-def compare(dec, built, paths, cases, stats, what='vm-vs-oracle'):
+def compare(dec, built, paths, cases, stats, what='vm-vs-oracle', bound_handled_by_caller=False):
     """paths: VM Path list; cases: list of (conds, events, kind) with kind 'done' | 'diverge'.
     returns (mismatches, inconclusive) where a mismatch is dict(model_argv=..., vm=..., oracle=...)"""
     T = dec.T
@@ -20,6 +20,8 @@ def compare(dec, built, paths, cases, stats, what='vm-vs-oracle'):
     inconc = []
     vm = built.vm
     for p in paths:
+        if p.kind == 'bound' and bound_handled_by_caller:
+            continue
         if p.kind in ('bound', 'unknown'):
             inconc.append('%s: VM path %s: %s' % (built.case.name, p.kind, p.info))
             continue
